@@ -198,7 +198,8 @@ void run(Ctx &c, int nb) {
 	};
 	std::vector<std::function<void()>> bodies;
 	for(unsigned k = 0; k < nthreads; k++) bodies.push_back([&, k] { try { body(k); } catch(Panic &p) { dsched::Ignore ig; w.err("frg_panic on a valid history: %s", p.msg.c_str()); } });
-	auto choose = [&](size_t n) -> uint32_t { return t.done() ? 0 : t.next() % n; };
+	unsigned smode = t.pick(5); c.tagf("sched-mode-%u", smode);
+	auto choose = dsched::make_chooser(t, smode);
 	auto r = dsched::run(bodies, choose, 150000);
 	VCHECK(c, "C05", r.verdict != "deadlock", "deadlock: no thread can make a step after %llu schedule points (a pool call blocks forever)", (unsigned long long)r.steps);
 	VCHECK(c, "C05", r.verdict.empty(), "the threads did not finish within %llu schedule points", (unsigned long long)r.steps);
@@ -254,7 +255,7 @@ void verif_enum(Enum &e) {
 	for(auto &sh : shapes) {
 		std::vector<uint32_t> choices; bool more = true; uint64_t n = 0;
 		while(more && n < cap) {
-			std::vector<uint32_t> tape = sh.prefix; tape.insert(tape.end(), choices.begin(), choices.end());
+			std::vector<uint32_t> tape = sh.prefix; tape.push_back(0 /* schedule mode: uniform */); tape.insert(tape.end(), choices.begin(), choices.end());
 			if(!e.run(tape)) return;
 			n++;
 			auto sizes = dsched::S().trace_sizes;
